@@ -9,6 +9,9 @@ pub mod c08;
 pub mod c09;
 pub mod c10;
 pub mod c11;
+pub mod c12;
+pub mod c13;
+pub mod c14;
 pub mod c19;
 pub mod c20;
 
@@ -27,6 +30,12 @@ const BASE_ASSUME: &[&str] = &[
     "TwoFloat is #[repr(C)] {hi,lo}: operands are built from raw words by transmute",
 ];
 
+const FN_ASSUME: &[&str] = &[
+    "rustc/LLVM and IEEE-754 round-to-nearest hardware arithmetic",
+    "the interval big-float reference functions of tfref::rf (outward-rounded enclosures, cross-validated against mpmath at 1400+ bits by setup_cmd); a VIOLATION is only reported when the result is outside the tolerance for every value in the enclosure",
+    "TwoFloat is #[repr(C)] {hi,lo}: operands are built from raw words by transmute",
+];
+
 pub fn registry(id: &str) -> Option<Entry> {
     Some(match id {
         "C01" => Entry { run: c01::run, replay: c01::replay, rule: "state = a TwoFloat value (128 bits, NaN canonicalised); initial states = alphabets (depth 1) and seeds (chains); transition = one public API call on the real crate; invariant on every produced value: valid (hi == RN(hi+lo), both finite) or non-finite high word; breadth-first with exact-state deduplication", assumptions: BASE_ASSUME },
@@ -40,6 +49,9 @@ pub fn registry(id: &str) -> Option<Entry> {
         "C09" => Entry { run: c09::run, replay: c09::replay, rule: "state = one integer value of one of the ten types, one TwoFloat, or one f32; transition = every conversion route (From / TryFrom by value and by reference / ToPrimitive / NumCast / FromPrimitive); judged against exact integer arithmetic", assumptions: BASE_ASSUME },
         "C10" => Entry { run: c10::run, replay: c10::replay, rule: "state = ordered operand pair (valid and reachable non-finite) or a single operand; transition = every spelling of the operation (value/reference/assignment, operand typings, trait vs inherent); oracle = the other spelling, bit-identical words (NaN == NaN; algebraic identities modulo the sign of zero words)", assumptions: BASE_ASSUME },
         "C11" => Entry { run: c11::run, replay: c11::replay, rule: "state = operand tuple; transition = the same public API call executed in both build configurations linked into one binary (crate twofloat with default features / the same sources compiled as tf_nostd with --no-default-features --features math_funcs); oracle = the other configuration, bit-identical words (NaN == NaN), plus exactness of new_mul's low word in both", assumptions: &["rustc/LLVM, IEEE-754 hardware", "compiling /repo/src/lib.rs a second time under another crate name with features {math_funcs} is the no_std configuration (same cfg evaluation as --no-default-features --features math_funcs)", "the libm crate flavour in use is stated in coverage.notes"] },
+        "C12" => Entry { run: c12::run, replay: c12::replay, rule: "the complete finite set of 19 constants, 19 FloatConst accessors and 6 associated constants, each compared with the correctly rounded double-double of a 640-bit interval enclosure of the mathematical constant (resp. with the value derived from the exact validity predicate); plus one state per operand for the two angle conversions, judged against an interval enclosure of x*180/pi", assumptions: FN_ASSUME },
+        "C13" => Entry { run: c13::run, replay: c13::replay, rule: "state = operand (pair) or (base, exponent); transition = sqrt / cbrt / hypot / powi and the Pow impls; roots judged by exact squaring/cubing inequalities in arbitrary-precision integers, powers against an interval enclosure of x^n by binary powering; exact-point, sign, identity and no-panic clauses checked literally", assumptions: FN_ASSUME },
+        "C14" => Entry { run: c14::run, replay: c14::replay, rule: "state = argument (pair); transition = exp / exp2 / exp_m1 / powf on the real crate; judged against interval enclosures of e^x, 2^x, e^x-1, exp(y ln x) with the stated relative tolerances (three-valued decision with precision escalation), plus the exact-point, threshold, sign and no-panic clauses literally", assumptions: FN_ASSUME },
         "C19" => Entry { run: c19::run, replay: c19::replay, rule: "state = ordered operand pair; transition = one of the five spellings of %, div_euclid, rem_euclid; judged against the exact truncated / floored integer quotient (binary long division in the long accumulator) with the stated tolerance and near-integer proviso", assumptions: BASE_ASSUME },
         "C20" => Entry { run: c20::run, replay: c20::replay, rule: "text: state = one valid value, transitions = 54 format calls (3 traits x {plain,+} x 9 precisions) compared with std's f64 renderings and parsed back; serde: state = one environment script (sequence or map the data format offers the visitor, built with serde::de::value deserializers) or one valid value serialised through a recording Serializer; oracle = 20-line acceptance predicate using the exact validity test", assumptions: &["rustc/LLVM, IEEE-754 hardware", "std's f64 formatting and parsing are correct (used as the text oracle)", "serde::de::value::{SeqDeserializer, MapDeserializer} behave as a faithful data format", "tfref::big exact validity predicate"] },
         _ => return None,
